@@ -82,6 +82,8 @@ pub struct Shared {
     pub empty_returns: AtomicUsize,
     pub unblocked_returns: AtomicUsize,
     pub foreign: AtomicUsize,
+    /// requests of earlier trials of this worker that arrived late
+    pub strays: AtomicUsize,
     /// a receiver that is unblocked leaves instead of calling again
     pub exit_on_unblock: AtomicBool,
     /// requests written to a socket so far
@@ -172,6 +174,10 @@ fn gen_trial(rng: &mut Rng, id: u64) -> Trial {
 /// Set when a library call made by the harness panicked (on a defective tree a receive call may
 /// panic while holding the queue mutex; every later queue operation then panics as well).
 pub static LIB_PANICKED: AtomicBool = AtomicBool::new(false);
+
+/// ids of the trials this worker has started (a request carrying one of them that shows up in a
+/// later trial was left behind by a trial that was given up, it is not a corrupted request)
+pub static KNOWN_TRIALS: Mutex<Vec<u64>> = Mutex::new(Vec::new());
 
 /// Queue operations of the monitor itself, safe against a poisoned queue mutex.
 pub trait SafeQueueOps {
@@ -275,6 +281,11 @@ pub fn receiver_loop(server: Arc<Server>, sh: Arc<Shared>, trial: u64, ridx: usi
                     Some((t, c, idx)) if t == trial => {
                         sh.delivered.lock().unwrap().push((c, idx, ridx, now_ns()));
                         sh.ev(&who, format!("got {}/{}", c, idx));
+                    }
+                    Some((t, _, _)) if KNOWN_TRIALS.lock().unwrap().contains(&t) => {
+                        // left behind by an earlier trial of this worker (one that was given up)
+                        sh.strays.fetch_add(1, Ordering::SeqCst);
+                        sh.ev(&who, format!("got a request of earlier trial {:x}", t));
                     }
                     _ => {
                         sh.foreign.fetch_add(1, Ordering::SeqCst);
@@ -380,6 +391,26 @@ fn log_json(sh: &Shared, last: usize) -> J {
     J::A(l[from..].iter().map(|e| J::s(format!("{:>9} us {:>3} {}", e.t_ns / 1000, e.who, e.what))).collect())
 }
 
+/// Start of a trial: nothing of an earlier trial may still be on its way. The clients of earlier
+/// trials are gone, so their connection tasks end once they have pushed what they had parsed;
+/// wait for that, then throw away whatever they left in the queue. (Without this a request that
+/// was still inside its connection thread when the previous trial drained the queue shows up in
+/// the middle of the next trial.)
+pub fn settle(server: &Arc<Server>) -> bool {
+    let target = crate::net::CONNECTS.load(Ordering::SeqCst);
+    let quiet = crate::env::wait_tasks_done(target, Duration::from_secs(3));
+    for _ in 0..10_000 {
+        let s = server.vsnap();
+        if s.elems == 0 && s.tokens == 0 {
+            break;
+        }
+        if let Ok(Some(rq)) = std::panic::catch_unwind(std::panic::AssertUnwindSafe(|| server.try_recv())).unwrap_or(Ok(None)) {
+            let _ = rq.respond(Response::from_string("drained"));
+        }
+    }
+    quiet
+}
+
 /// End of a trial: release every receiver that is still there, drain what is left in the queue.
 pub fn wind_down(server: &Arc<Server>, sh: &Arc<Shared>, handles: Vec<std::thread::JoinHandle<()>>) -> bool {
     sh.stop.store(true, Ordering::SeqCst);
@@ -422,6 +453,11 @@ pub fn wind_down(server: &Arc<Server>, sh: &Arc<Shared>, handles: Vec<std::threa
 pub fn run_trial(ctx: &Ctx, env: &Env, trial: &Trial, case_seed: u64, mode: &str) {
     let rep = &ctx.rep;
     let server = env.server.clone();
+    if !settle(&server) {
+        rep.inconclusive("connection tasks of earlier trials did not end within 3 s");
+        return;
+    }
+    KNOWN_TRIALS.lock().unwrap().push(trial.id);
     let sh = Arc::new(Shared {
         delivered: Mutex::new(Vec::new()),
         log: Mutex::new(Vec::new()),
@@ -431,6 +467,7 @@ pub fn run_trial(ctx: &Ctx, env: &Env, trial: &Trial, case_seed: u64, mode: &str
         empty_returns: AtomicUsize::new(0),
         unblocked_returns: AtomicUsize::new(0),
         foreign: AtomicUsize::new(0),
+        strays: AtomicUsize::new(0),
         exit_on_unblock: AtomicBool::new(false),
         sent: AtomicUsize::new(0),
         client_trouble: AtomicUsize::new(0),
